@@ -245,9 +245,7 @@ func VerifC15_NoSelfDrift() {
 	// thorough tier: requirements swept together, interleavings still on their own
 	sweep := verifrt.Choice("sweep", 0, 2)
 	full := verifrt.Bound("fullProduct", 0, 1) == 1
-	if full && sweep == 2 {
-		return
-	}
+	// thorough: sweep 1 additionally varies the zone constraint together with the custom-key requirements
 	custom, wellKnown, interleave := sweep == 1, sweep == 2 || (full && sweep == 1), sweep == 0
 
 	// ---- the NodePool's requirements ----
@@ -277,14 +275,17 @@ func VerifC15_NoSelfDrift() {
 		case 3:
 			add(corev1.LabelTopologyZone, corev1.NodeSelectorOpNotIn, "zone-1")
 		}
-		switch verifrt.Choice("pool.capacityType", 0, 2) {
-		case 1:
-			add(v1.CapacityTypeLabelKey, corev1.NodeSelectorOpIn, v1.CapacityTypeOnDemand)
-		case 2:
-			add(v1.CapacityTypeLabelKey, corev1.NodeSelectorOpIn, v1.CapacityTypeSpot)
-		}
-		if verifrt.Choice("pool.arch", 0, 1) == 1 {
-			add(corev1.LabelArchStable, corev1.NodeSelectorOpIn, "arm64")
+		// (in the thorough product with the custom-key requirements only the zone constraint varies)
+		if !(full && custom) {
+			switch verifrt.Choice("pool.capacityType", 0, 2) {
+			case 1:
+				add(v1.CapacityTypeLabelKey, corev1.NodeSelectorOpIn, v1.CapacityTypeOnDemand)
+			case 2:
+				add(v1.CapacityTypeLabelKey, corev1.NodeSelectorOpIn, v1.CapacityTypeSpot)
+			}
+			if verifrt.Choice("pool.arch", 0, 1) == 1 {
+				add(corev1.LabelArchStable, corev1.NodeSelectorOpIn, "arm64")
+			}
 		}
 	}
 	w.kc.Pools = []*v1.NodePool{np}
@@ -393,11 +394,11 @@ func VerifC15_DriftedWhen() {
 		label = u[0]
 		nc.Labels[dKey] = label
 	}
-	launched := sweep == 1 || verifrt.Choice("claim.launched", 0, 1) == 1
+	launched := sweep != 0 || verifrt.Choice("claim.launched", 0, 1) == 1
 	if launched {
 		stubs.SetCondition(nc, v1.ConditionTypeLaunched, metav1.ConditionTrue, w.clk.Now())
 	}
-	if sweep != 1 && verifrt.Choice("claim.wasDrifted", 0, 1) == 1 {
+	if sweep == 0 && verifrt.Choice("claim.wasDrifted", 0, 1) == 1 {
 		stubs.SetCondition(nc, v1.ConditionTypeDrifted, metav1.ConditionTrue, w.clk.Now())
 	}
 
@@ -426,9 +427,19 @@ func VerifC15_DriftedWhen() {
 	}
 
 	// hash annotations: absent or one of two values, independently on both objects
+	// thorough product (sweep 2): all four annotations present; hash equal or not, version equal or not
 	pick := func(tag string, a, b string) (string, bool) {
 		if sweep == 1 {
 			return a, true
+		}
+		if sweep == 2 {
+			if tag == "pool.hash" || tag == "pool.hashVersion" {
+				return a, true
+			}
+			if verifrt.Choice(tag, 1, 2) == 1 {
+				return a, true
+			}
+			return b, true
 		}
 		switch verifrt.Choice(tag, 0, 2) {
 		case 1:
